@@ -495,7 +495,14 @@ _public_ int m_ctx_set_logger(m_log_cb logger) {
 
 _public_ int m_ctx_loop(void) {
     M_CTX_ASSERT();
-    return m_ctx_loop_events(c, M_CTX_DEFAULT_EVENTS);
+    /*
+     * A callback may drive the context re-entrantly (m_ctx_dispatch()) up to stopping the loop,
+     * thus releasing a non persistent context that lost its modules: keep it alive until we are done with it.
+     */
+    m_mem_ref(c);
+    int ret = m_ctx_loop_events(c, M_CTX_DEFAULT_EVENTS);
+    m_mem_unref(c);
+    return ret;
 }
 
 _public_ int m_ctx_quit(uint8_t quit_code) {
@@ -514,19 +521,29 @@ _public_ int m_ctx_fd(void) {
 _public_ int m_ctx_dispatch(void) {
     M_CTX_ASSERT();
 
+    int ret;
+    /*
+     * A callback may call m_ctx_dispatch() re-entrantly, up to stopping the loop and thus releasing
+     * a non persistent context that lost its modules: keep it alive until this step is done with it.
+     */
+    m_mem_ref(c);
     if (c->state == M_CTX_IDLE) {
         /* Ok, start now (unless the context is being deregistered) */
-        M_LOG_ASSERT(!c->destroying, "Context is being deregistered.", -EINVAL);
-        return loop_start(c, M_CTX_DEFAULT_EVENTS);
-    }
-    
-    if (c->quit || c->stats.running_modules == 0) {
+        if (c->destroying) {
+            M_DEBUG("Context is being deregistered.\n");
+            ret = -EINVAL;
+        } else {
+            ret = loop_start(c, M_CTX_DEFAULT_EVENTS);
+        }
+    } else if (c->quit || c->stats.running_modules == 0) {
         /* We are stopping! */
-        return loop_stop(c);
+        ret = loop_stop(c);
+    } else {
+        /* Recv new events, no timeout */
+        ret = recv_events(c, 0);
     }
-
-    /* Recv new events, no timeout */
-    return recv_events(c, 0);
+    m_mem_unref(c);
+    return ret;
 }
 
 _public_ int m_ctx_dump(void) {
